@@ -355,7 +355,7 @@ SEMS = ['standard', 'output-robustness', 'input-robustness', 'output-vacuity', '
 
 class D06(Extra):
     RULE = ('dense-time formulas x 5 semantics x input/output assignments: dense offline evaluate() and (past-time formulas) dense online update() of the IA-STL '
-            'specification classes against the tick semantics rhoZ in which every insensitive predicate contributes +-inf / 0 (pk_spec)')
+            'specification classes against the tick semantics rhoZ in which every insensitive predicate contributes +-inf / 0 (pk_spec); the offline result is also compared list for list with the model of the IA visitors (deval_pk)')
 
     def gen(self, rng, tier):
         out = []
@@ -384,7 +384,8 @@ class D06(Extra):
     def model_lines(self, c):
         t0, tmax, tmin = domain(c['f'], c['sigs'])
         io = ' '.join(str(b) for b in c['io'])
-        return ['(rhoz (iaspec %s (%s)) %s (%s) %d %d)' % (c['sem'], io, fml.to_sx(c['f']), sigs_sx(c['sigs']), t0, max(tmax, t0) + 8)]
+        return ['(rhoz (iaspec %s (%s)) %s (%s) %d %d)' % (c['sem'], io, fml.to_sx(c['f']), sigs_sx(c['sigs']), t0, max(tmax, t0) + 8),
+                '(devalpk (ia %s (%s)) %s (%s))' % (c['sem'], io, fml.to_sx(c['f']), sigs_sx(c['sigs']))]
 
     def impl_cases(self, c):
         io = {fml.VARS[i]: ('input' if c['io'][i] else 'output') for i in range(c['nv'])}
@@ -418,6 +419,17 @@ class D06(Extra):
                 if k == 1:
                     continue             # the online monitor may not have settled anything yet (C05 covers what it emits)
                 return 'violation', dict(det, monitor=mon, observed='empty result')
+            if k == 0 and len(mlines) > 1 and mlines[1].startswith('DEVAL'):
+                # the model of the IA-STL offline visitor (DenseVisitor.deval_pk with the kinds the visitors compute, theorem
+                # C06_dense_visitor): the same list, sample for sample
+                got = [[t, x] for t, x in v if t != math.inf]
+                if mlines[1] == 'DEVAL NONE':
+                    return 'violation', dict(det, monitor=mon, kind='list', expected='DenseVisitor.deval_pk: an exception', observed=got)
+                dv = [[int(x.split(':')[0]), fml.parse_val(x.split(':')[1])] for x in mlines[1].split()[1:]]
+                if [[float(a), float(b)] for a, b in dv] != [[float(a), float(b)] for a, b in got]:
+                    return 'violation', dict(det, monitor=mon, kind='list', expected={'source': 'DenseVisitor.deval_pk: the sample list the IA visitor builds', 'samples_ticks': [[a, fml.val_sx(b)] for a, b in dv]},
+                                             observed={'samples_ticks': got})
+                self.ia_lists = getattr(self, 'ia_lists', 0) + 1
             hi = tmax if k == 0 else max([t for t, _ in v if t != math.inf] or [t0])
             d = dense.compare_ticks(spec, v, max(t0, v[0][0]), hi)
             if d is not None:
